@@ -4,6 +4,8 @@
 package verifsim
 
 import (
+	"os"
+	"path/filepath"
 	_ "time/tzdata"
 	"crypto/sha256"
 	"encoding/hex"
@@ -184,6 +186,7 @@ type Result struct {
 	Cfg        map[string]any
 	HarnessErr string // infrastructure trouble: never a violation
 	SubRuns    []string
+	RaceSigs   []string // race class: the signatures of all reports of this run
 }
 
 type HarnessError struct{ Msg string }
@@ -257,10 +260,34 @@ func execute(e *Engine, prop, tier string, seed uint64, t *Tape, opt map[string]
 		}()
 		e.Exec(r)
 	}
+	raceBefore := raceLogSize()
 	if e.Bubble {
 		runInBubble(body)
 	} else {
 		body()
+	}
+	if rep := raceLogSince(raceBefore); rep != "" && res.Viol == nil && res.HarnessErr == "" {
+		// several races may be reported in one run, in an order that varies: all signatures are kept
+		seen := map[string]bool{}
+		first := ""
+		for _, blk := range strings.Split(rep, "WARNING: DATA RACE") {
+			if !strings.Contains(blk, " at 0x") {
+				continue
+			}
+			sig := "C15|data-race|" + raceSites(blk)
+			if !seen[sig] {
+				seen[sig] = true
+				res.RaceSigs = append(res.RaceSigs, sig)
+				if first == "" {
+					first = blk
+				}
+			}
+		}
+		sort.Strings(res.RaceSigs)
+		if len(res.RaceSigs) > 0 {
+			res.Viol = &Violation{Prop: "C15", Class: "data-race", Sig: res.RaceSigs[0], Msg: "the race detector reported (first of " + fmt.Sprint(len(res.RaceSigs)) + " distinct reports):\nWARNING: DATA RACE" + truncateStr(first, 2500), Step: r.Step}
+			r.Logf("VIOLATION data-race")
+		}
 	}
 	finish()
 	return res
@@ -317,4 +344,90 @@ func sortedKeys(m map[string]int) []string {
 	}
 	sort.Strings(ks)
 	return ks
+}
+
+// ---------------------------------------------------------------------------------------------
+// race detector reports (only in -race builds started with GORACE=log_path=...)
+
+func raceLogFiles() []string {
+	g := os.Getenv("GORACE")
+	for _, f := range strings.Fields(g) {
+		if strings.HasPrefix(f, "log_path=") {
+			m, _ := filepath.Glob(strings.TrimPrefix(f, "log_path=") + ".*")
+			sort.Strings(m)
+			return m
+		}
+	}
+	return nil
+}
+
+func raceLogSize() int64 {
+	var n int64
+	for _, f := range raceLogFiles() {
+		if st, err := os.Stat(f); err == nil {
+			n += st.Size()
+		}
+	}
+	return n
+}
+
+func raceLogSince(before int64) string {
+	var all []byte
+	for _, f := range raceLogFiles() {
+		b, _ := os.ReadFile(f)
+		all = append(all, b...)
+	}
+	if int64(len(all)) <= before {
+		return ""
+	}
+	return string(all[before:])
+}
+
+// raceSites names the two conflicting accesses by their first frames inside the repository.
+func raceSites(rep string) string {
+	var sites []string
+	lines := strings.Split(rep, "\n")
+	inAccess := false
+	for _, l := range lines {
+		t := strings.TrimSpace(l)
+		if strings.HasPrefix(t, "Read at") || strings.HasPrefix(t, "Write at") || strings.HasPrefix(t, "Previous read at") || strings.HasPrefix(t, "Previous write at") {
+			inAccess = true
+			continue
+		}
+		if t == "" {
+			inAccess = false
+			continue
+		}
+		if inAccess && strings.Contains(t, "block-headers-service/") && !strings.Contains(t, "verifsim") && strings.HasSuffix(t, ")") {
+			fn := t
+			if k := strings.LastIndex(fn, "block-headers-service/"); k >= 0 {
+				fn = fn[k+len("block-headers-service/"):]
+			}
+			if k := strings.Index(fn, "("); k > 0 && !strings.HasPrefix(fn[k:], "(*") {
+				fn = fn[:k]
+			}
+			// which of several racing methods of two types is reported first varies from run to run: the
+			// signature names the two receiver types, not the methods
+			if k := strings.Index(fn, ")."); k > 0 && strings.Contains(fn, "(*") {
+				fn = fn[:k+1]
+			}
+			sites = append(sites, fn)
+			inAccess = false
+		}
+		if len(sites) == 2 {
+			break
+		}
+	}
+	sort.Strings(sites)
+	if len(sites) == 0 {
+		return "unknown-site"
+	}
+	return strings.Join(sites, "<->")
+}
+
+func truncateStr(s string, n int) string {
+	if len(s) > n {
+		return s[:n] + "..."
+	}
+	return s
 }
